@@ -75,6 +75,17 @@
       compiler rejects overflow there); `Box<T>` is `T`;
       `==` / `!=` on byte arrays, table-mapped types and selected structs/enums is equality of the representation
       (their `PartialEq` impls are the derived / std structural ones);
+    * IGNORED FIELDS (manifest `StructIgnore`, used for the statistics fields `stats` / `rtt` of `RenetClient`, which
+      are floating point): the generated struct omits them; a statement that only writes them — an assignment to an
+      ignored field, a method call on it, a `let` of a value computed from ignored fields or floats, an `if` whose
+      condition reads them and whose branches contain only such statements without any effect — is dropped like a
+      `log::…!` call, except that the translatable operands are still evaluated (so their panics are kept, e.g. the
+      `Duration` subtraction in `(now - sent_at).as_secs_f64()`); every other read of an ignored field is rejected by
+      the translator, so the translated state provably does not depend on them;
+    * a type parameter `I: Into<T>` is `T` and `x.into()` the identity on it (what every caller in the crates passes:
+      `u8` channel ids, `Bytes` / `Vec<u8>` messages); a `Result` call whose result the caller inspects
+      (`if let Err(e) = f(..)`, `match f(..) { Ok(..) => .., Err(..) => .. }`) is `Exec.attempt`: the `&mut` state the
+      callee leaves behind is written back in both cases and the result becomes an `Except` value;
     * `std::io::Error` is the one-point type `IoError` (external types are mapped by a table in the
       translator's manifest; their content is never inspected by translated code);
     * the translator itself (that it emits the primitive that belongs to each construct) and
@@ -166,6 +177,20 @@ theorem run_panic (s : String) : (Exec.panic s : Exec ε ρ ρ).run = .panic s :
 theorem call_ok (a : α) : (call (.ok a) : Exec ε ρ α) = .val a := rfl
 theorem call_err (e : ε) : (call (.err e : Res ε α) : Exec ε ρ α) = .err e := rfl
 theorem call_panic (s : String) : (call (.panic s : Res ε α) : Exec ε ρ α) = .panic s := rfl
+
+/-- a call whose `Result` the caller inspects (`if let Err(e) = f(..)`, `match f(..) { Ok(x) => .., Err(e) => .. }`) of a
+    fn with `&mut` state: the state the callee leaves behind — after `Ok` and after `Err` — and the result as a value -/
+def attempt {ε' σ : Type} (r : Res (ε' × σ) (σ × α)) : Exec ε ρ (σ × Except ε' α) :=
+  match r with
+  | .ok (s, a) => .val (s, .ok a)
+  | .err (e, s) => .val (s, .error e)
+  | .panic m => .panic m
+/-- the same for a fn without `&mut` state -/
+def attemptPure {ε' : Type} (r : Res ε' α) : Exec ε ρ (Except ε' α) :=
+  match r with
+  | .ok a => .val (.ok a)
+  | .err e => .val (.error e)
+  | .panic m => .panic m
 end Exec
 
 /-- `for i in lo..hi { body }`: `σ` is the tuple of variables declared outside and assigned inside
@@ -361,6 +386,8 @@ where
   go (i : Nat) : List α → List (Nat × α)
     | [] => []
     | x :: r => (i, x) :: go (i + 1) r
+/-- `assert!(c, ..)` -/
+def assert (c : Bool) (site : String) : Exec ε ρ Unit := if c then .val () else .panic site
 /-- `o?` in a fn returning `Option`: the value of `Some`, or `return None` (`r` is what the fn then returns) -/
 def try_option (o : Option α) (r : ρ) : Exec ε ρ α :=
   match o with
